@@ -31,6 +31,7 @@ class Stats:
                   'external_body': 0, 'ghost_items': 0}
         self.external_body = []   # (file, fn, discharged_by)
         self.verified_fns = []    # (file, fn)
+        self.records = []         # contracted fns: dict(rel, scopes, fn_rx, fname, external, discharged_by)
 
     def add(self, k, d=1):
         self.n[k] = self.n.get(k, 0) + d
@@ -178,6 +179,8 @@ class FileSplice:
             self.stats.verified_fns.append((self.rel, ' > '.join(list(scopes) + [fname])))
         if clauses.strip():
             self.stats.add('contracts')
+        self.stats.records.append({'rel': self.rel, 'scopes': list(scopes), 'fn_rx': fn_rx, 'fname': fname,
+                                   'external': any('external_body' in x for x in attrs), 'discharged_by': discharged_by})
         hl = s.rfind('\n', 0, it.header) + 1
         self._set(s[:hl] + a + s[hl:p_close + 1] + new_tail + s[it.body_open:])
 
@@ -238,3 +241,22 @@ class FileSplice:
         if tag:
             self.stats.add(tag, count)
         self._set(self.s.replace(old, new))
+
+
+def index_file(F, records):
+    """after all ops: line ranges of every contracted fn and the property tags of its contract header"""
+    out = []
+    s = F.s
+    def line_of(i):
+        return s.count('\n', 0, i) + 1
+    for r in records:
+        if r['rel'] != F.rel:
+            continue
+        it = F.locate(r['scopes'], r['fn_rx'])
+        hdr = s[it.header:it.body_open]
+        tags = []
+        for m in re.finditer(r'/\*@([^*]*)\*/', hdr):
+            tags.append({'line': line_of(it.header + m.start()), 'props': m.group(1).split()})
+        out.append(dict(r, start=line_of(it.header), body=line_of(it.body_open), end=line_of(it.end - 1),
+                        has_body=it.has_body, tags=tags))
+    return out
